@@ -76,8 +76,14 @@ pub fn judge(c: &Case, site: &Site, diags: &[Diag]) -> Verdict {
         }),
         Inject::FallThrough => {
             // on the label of the function that is fallen into
-            match site.label.as_ref().and_then(|l| c.printed.label_defs.get(l)) {
-                Some((line, c0, c1)) => of_kind.iter().any(|d| overlaps(d, *line, *c0, *c1 + 1)),
+            // (any of the labels on that entry: the function's name or one of its aliases)
+            match site.label.as_ref() {
+                Some(l) => c
+                    .printed
+                    .label_defs
+                    .iter()
+                    .filter(|(name, _)| *name == l || name.starts_with(&format!("{l}_alias")))
+                    .any(|(_, (line, c0, c1))| of_kind.iter().any(|d| overlaps(d, *line, *c0, *c1 + 1))),
                 None => false,
             }
         }
